@@ -30,6 +30,10 @@ class GenOpts:
         self.local_data = True
         self.hist_targets = True
         self.nested_history = False
+        self.history_weight = 2       # out of 5: probability that a compound/parallel state gets a history
+        self.two_histories = True     # a state may own a shallow and a deep history
+        self.hist_target_weight = 1   # how often history ids are repeated in the target pool
+        self.descriptors = None       # restrict event descriptors (list of lists)
         self.loose = False           # C02/C19: target lists the validator has to judge
         self.__dict__.update(kw)
 
@@ -194,7 +198,7 @@ def charts(draw, o=None, datamodel='lua'):
     excluded = [0]
     if o.history:
         for s in list(proper):
-            if (s.is_compound() or s.kind == 'parallel') and weighted(draw, [(0, 3), (1, 2)]) == 1:
+            if (s.is_compound() or s.kind == 'parallel') and weighted(draw, [(0, 5 - o.history_weight), (1, o.history_weight)]) == 1:
                 h = State('history', id="h%d" % len(hist_ids))
                 h.hist_type = draw(st.sampled_from(['shallow', 'deep']))
                 if not o.nested_history:
@@ -228,6 +232,25 @@ def charts(draw, o=None, datamodel='lua'):
                 else:
                     s.children.append(h)
                 hist_ids.append(h.id)
+                if o.two_histories and draw(st.integers(0, 3)) == 3 and not (not o.nested_history and h.hist_type == 'shallow' and
+                                                                           any(d.is_compound() or d.kind == 'parallel' for d in s.descendants()) and False):
+                    # the other kind of history in the same state (legal; both are recorded at the same moment)
+                    h2 = State('history', id="h%d" % len(hist_ids))
+                    h2.hist_type = 'deep' if h.hist_type == 'shallow' else 'shallow'
+                    if s.kind == 'parallel':
+                        tg2 = [c.id for c in pc]
+                    elif h2.hist_type == 'shallow':
+                        tg2 = [draw(st.sampled_from(pc)).id]
+                    else:
+                        tg2 = [draw(st.sampled_from([d for d in s.descendants() if d.kind in ('state', 'parallel', 'final')])).id]
+                    h2.transitions = [Trans(targets=tg2)]
+                    if h2.hist_type == 'deep':
+                        deep_hist_parents.add(s)
+                    if draw(st.booleans()):
+                        s.children.insert(0, h2)
+                    else:
+                        s.children.append(h2)
+                    hist_ids.append(h2.id)
 
     # initial for compounds (incl. root: attribute only)
     for s in [root] + proper:
@@ -271,7 +294,7 @@ def charts(draw, o=None, datamodel='lua'):
 
     # transitions
     target_pool = list(proper)
-    all_target_ids = ids + (hist_ids if o.hist_targets else [])
+    all_target_ids = ids + (hist_ids * o.hist_target_weight if o.hist_targets else [])
     for s in proper:
         if s.kind == 'final':
             continue
@@ -285,7 +308,7 @@ def charts(draw, o=None, datamodel='lua'):
                 ev_opts.append(('done', 1))
             ek = weighted(draw, ev_opts)
             if ek == 'desc':
-                t.events = list(draw(st.sampled_from(DESCRIPTORS)))
+                t.events = list(draw(st.sampled_from(o.descriptors or DESCRIPTORS)))
             elif ek == 'done':
                 comp = [x.id for x in proper if x.is_compound() or x.kind == 'parallel']
                 t.events = ['done.state.' + draw(st.sampled_from(comp))] if comp else ['a']
@@ -328,5 +351,97 @@ def charts(draw, o=None, datamodel='lua'):
     return ch
 
 
-def event_histories(max_len=6):
-    return st.lists(st.sampled_from(EVENT_NAMES), min_size=0, max_size=max_len)
+def event_histories(max_len=6, names=None):
+    return st.lists(st.sampled_from(names or EVENT_NAMES), min_size=0, max_size=max_len)
+
+
+def history_profile():
+    """charts that concentrate on history semantics: many history states and transitions into them, two event names,
+    no executable content; meant to be combined with event_histories(12, ['a', 'b'])"""
+    return GenOpts(max_states=8, max_depth=3, content=False, data=False, conds=False, history_weight=4, hist_target_weight=3,
+                   descriptors=[['a'], ['b'], ['a'], ['b'], ['*']], eventless=False, done_events=False, finals=False,
+                   late_binding=False, initial_elem=False)
+
+
+# ---------------------------------------------------------------------------------------------------------
+# bounded exhaustive enumeration of small charts (C01 / C03): every ordered state tree with <= N proper states,
+# every kind assignment (state / parallel / final), every set of <= T transitions from the menu
+# {source} x {targetless, any single target, internal variant for compound sources}, all on event 'a'.
+def _enum_shapes(n):
+    if n == 0:
+        yield []
+        return
+    for k in range(1, n + 1):
+        for first in _enum_shapes(k - 1):
+            for rest in _enum_shapes(n - k):
+                yield [first] + rest
+
+
+def _kinds(shape, in_parallel, top):
+    """yield forests [(kind, kids)]"""
+    if not shape:
+        yield []
+        return
+    first, rest = shape[0], shape[1:]
+    if first:
+        ks = ['state'] if in_parallel else ['state', 'parallel']
+    else:
+        ks = ['state'] if in_parallel else ['state', 'final']
+    for kind in ks:
+        for kids in _kinds(first, kind == 'parallel', False):
+            if kind == 'parallel' and len(kids) < 1:
+                continue
+            for others in _kinds(rest, in_parallel, top):
+                yield [(kind, kids)] + others
+
+
+def _realise(forest):
+    cnt = [0]
+
+    def mk(node):
+        kind, kids = node
+        s = State(kind, id="s%d" % cnt[0])
+        cnt[0] += 1
+        s.children = [mk(k) for k in kids]
+        return s
+    return [mk(x) for x in forest]
+
+
+def enum_small_charts(nstates, ntrans, shard=0, nshards=1, only_parallel_above=None, datamodel='null'):
+    """yields (chart, label). only_parallel_above=k: trees with more than k states are only enumerated when they
+    contain a parallel state (where selection / conflict logic is non-trivial)."""
+    import itertools
+    idx = 0
+    for n in range(1, nstates + 1):
+        for shape in _enum_shapes(n):
+            for forest in _kinds(shape, False, True):
+                if forest[0][0] == 'final':
+                    continue
+                flat = []
+
+                def has_par(f):
+                    return any(k == 'parallel' or has_par(c) for k, c in f)
+                if only_parallel_above is not None and n > only_parallel_above and not has_par(forest):
+                    continue
+                probe = Chart(State('scxml', children=_realise(forest)), datamodel)
+                proper = [s for s in probe.states if s.kind != 'scxml']
+                menu = []
+                for s in proper:
+                    if s.kind == 'final':
+                        continue
+                    menu.append((s.id, None, False))
+                    for t in proper:
+                        menu.append((s.id, t.id, False))
+                        if s.is_compound() and t.is_descendant_of(s):
+                            menu.append((s.id, t.id, True))
+                for k in range(0, ntrans + 1):
+                    for combo in itertools.combinations(menu, k):
+                        idx += 1
+                        if idx % nshards != shard:
+                            continue
+                        root = State('scxml', children=_realise(forest))
+                        ch = Chart(root, datamodel)
+                        for (src, tgt, internal) in combo:
+                            ch.by_id[src].transitions.append(Trans(events=['a'], targets=[tgt] if tgt else [], internal=internal))
+                        ch.finish()
+                        yield ch
